@@ -41,6 +41,8 @@ func c03BaseTypes() []c03Ty {
 		{"string*int*bool", "frt.Tuple3[string, int, bool]", `frt.NewTuple3("t", 2, false)`, "{t 2 false}"},
 		{"int->string", "func(int) string", `func(i int) string { return "f" }`, ""},
 		{"float", "float64", "1.5", "1.5"},
+		{"int*(string*bool)", "frt.Tuple2[int, frt.Tuple2[string, bool]]", `frt.NewTuple2(1, frt.NewTuple2("q", true))`, "{1 {q true}}"},
+		{"(int*string)*bool", "frt.Tuple2[frt.Tuple2[int, string], bool]", `frt.NewTuple2(frt.NewTuple2(1, "q"), true)`, "{{1 q} true}"},
 	}
 }
 
@@ -79,6 +81,7 @@ type c03Fun struct {
 	Res    c03Ty
 }
 type c03Set struct {
+	Group  bool // records 0 and 1 are declared as one `type … and …` group, 0 referring forward to 1
 	Idx    int
 	Recs   []c03Rec
 	Unions []c03Union
@@ -107,6 +110,11 @@ func c03GenSet(rng *Rng, idx int) *c03Set {
 			r.Fields = append(r.Fields, c03Field{fn, ty})
 		}
 		s.Recs = append(s.Recs, r)
+	}
+	if len(s.Recs) >= 2 && len(s.Recs[0].TParams) == 0 && len(s.Recs[1].TParams) == 0 && rng.Chance(1, 2) {
+		s.Group = true
+		fwd := c03Field{"Fwd0", c03Ty{"[]" + s.Recs[1].Name, "[]" + s.Recs[1].Name, "[]" + s.Recs[1].Name + "{}", "[]"}}
+		s.Recs[0].Fields = append([]c03Field{fwd}, s.Recs[0].Fields...)
 	}
 	for i := 0; i < 1+rng.Intn(3); i++ {
 		u := c03Union{Name: fmt.Sprintf("Un%d_%d", idx, i)}
@@ -156,12 +164,19 @@ func tparamsFo(tps []string) string {
 
 func (s *c03Set) folang() string {
 	var b strings.Builder
-	for _, r := range s.Recs {
+	for ri, r := range s.Recs {
 		var fs []string
 		for _, f := range r.Fields {
 			fs = append(fs, f.Name+": "+f.Ty.Fo)
 		}
-		fmt.Fprintf(&b, "type %s%s = {%s}\n\n", r.Name, tparamsFo(r.TParams), strings.Join(fs, "; "))
+		switch {
+		case s.Group && ri == 0:
+			fmt.Fprintf(&b, "type %s = {%s}\n", r.Name, strings.Join(fs, "; "))
+		case s.Group && ri == 1:
+			fmt.Fprintf(&b, "and %s = {%s}\n\n", r.Name, strings.Join(fs, "; "))
+		default:
+			fmt.Fprintf(&b, "type %s%s = {%s}\n\n", r.Name, tparamsFo(r.TParams), strings.Join(fs, "; "))
+		}
 	}
 	for _, u := range s.Unions {
 		fmt.Fprintf(&b, "type %s%s =\n", u.Name, tparamsFo(u.TParams))
@@ -368,6 +383,29 @@ func (s *c03Set) client() (string, []string) {
 		}
 		b.WriteString("\t}\n")
 		exp = append(exp, prn...)
+		// positional literal: relies on the documented field ORDER
+		var vals []string
+		for _, f := range r.Fields {
+			t := f.Ty
+			if t.Go == "T" {
+				t = c03BaseTypes()[0]
+			}
+			vals = append(vals, t.Val)
+		}
+		fmt.Fprintf(&b, "\t{\n\t\tp := %s%s{%s}\n", r.Name, inst(r.TParams), strings.Join(vals, ", "))
+		for _, f := range r.Fields {
+			t := f.Ty
+			if t.Go == "T" {
+				t = c03BaseTypes()[0]
+			}
+			if t.Prn != "" {
+				fmt.Fprintf(&b, "\t\tfmt.Println(%q, p.%s)\n", "pos "+r.Name+"."+f.Name, f.Name)
+				exp = append(exp, "pos "+r.Name+"."+f.Name+" "+t.Prn)
+			} else {
+				fmt.Fprintf(&b, "\t\t_ = p.%s\n", f.Name)
+			}
+		}
+		b.WriteString("\t}\n")
 	}
 	for _, u := range s.Unions {
 		for ci, c := range u.Cases {
@@ -482,6 +520,9 @@ func (e *c03Ext) goImpl() string {
 	if e.Generic {
 		g = "[T any]"
 	}
+	if e.Generic {
+		return fmt.Sprintf("func %s%s(%s) string { return fmt.Sprint(%q, reflect.TypeOf((*T)(nil)).Elem(), \";\", %s) }\n", e.Name, g, strings.Join(ps, ", "), e.Name+":", strings.Join(as, ", \"|\", "))
+	}
 	return fmt.Sprintf("func %s%s(%s) string { return fmt.Sprint(%q, %s) }\n", e.Name, g, strings.Join(ps, ", "), e.Name+":", strings.Join(as, ", \"|\", "))
 }
 
@@ -498,6 +539,12 @@ func (e *c03Ext) foTest() (string, []string) {
 		prn = append(prn, strings.Trim(lit[p.Fo][i], "\""))
 	}
 	want := e.Name + ":" + strings.Join(prn, "|")
+	wantAny := want
+	if e.Generic {
+		// the implementation prints its static type parameter first
+		want = e.Name + ":" + e.Params[0].Go + ";" + strings.Join(prn, "|")
+		wantAny = e.Name + ":interface {};" + strings.Join(prn, "|")
+	}
 	n := len(args)
 	var b strings.Builder
 	var exp []string
@@ -505,10 +552,19 @@ func (e *c03Ext) foTest() (string, []string) {
 	// direct
 	fmt.Fprintf(&b, "  frt.Println (%s %s)\n", q, strings.Join(args, " "))
 	exp = append(exp, want)
-	// explicit type argument
+	// explicit type argument, equal to and different from what Go would infer, in every call form
 	if e.Generic {
 		fmt.Fprintf(&b, "  frt.Println (%s<%s> %s)\n", q, e.Params[0].Fo, strings.Join(args, " "))
 		exp = append(exp, want)
+		fmt.Fprintf(&b, "  frt.Println (%s<any> %s)\n", q, strings.Join(args, " "))
+		exp = append(exp, wantAny)
+		if n >= 2 {
+			fmt.Fprintf(&b, "  %s |> %s<any> %s |> frt.Println\n", args[n-1], q, strings.Join(args[:n-1], " "))
+			exp = append(exp, wantAny)
+			fmt.Fprintf(&b, "  let pany = %s<any> %s\n", q, args[0])
+			fmt.Fprintf(&b, "  frt.Println (pany %s)\n", strings.Join(args[1:], " "))
+			exp = append(exp, wantAny)
+		}
 	}
 	// piped: last argument on the left
 	if n >= 1 {
@@ -649,8 +705,8 @@ func runC03(c *Ctx) {
 		}
 		fo.WriteString(tests.String())
 		MustWrite(filepath.Join(dir, "m.fo"), fo.String())
-		MustWrite(filepath.Join(dir, "client.go"), "package main\n\nimport (\n\t\"fmt\"\n\n\t\"github.com/karino2/folang/pkg/frt\"\n)\n\nvar _ = frt.Println\n\n"+cl.String()+impl.String()+"func main() {\n"+mainb.String()+"}\n")
-		MustWrite(filepath.Join(dir, "extpk", "extpk.go"), "package extpk\n\nimport \"fmt\"\n\nvar _ = fmt.Sprint\n\n"+implPk.String())
+		MustWrite(filepath.Join(dir, "client.go"), "package main\n\nimport (\n\t\"fmt\"\n\t\"reflect\"\n\n\t\"github.com/karino2/folang/pkg/frt\"\n)\n\nvar _ = frt.Println\nvar _ = reflect.TypeOf\n\n"+cl.String()+impl.String()+"func main() {\n"+mainb.String()+"}\n")
+		MustWrite(filepath.Join(dir, "extpk", "extpk.go"), "package extpk\n\nimport (\n\t\"fmt\"\n\t\"reflect\"\n)\n\nvar _ = fmt.Sprint\nvar _ = reflect.TypeOf\n\n"+implPk.String())
 		r := c.Fc(dir, c.MiniFoi(c.Work), "m.fo")
 		rep := map[string]any{"folang": fo.String(), "client_go": cl.String(), "fc_output": r.Stdout}
 		if r.Exit != 0 {
